@@ -368,7 +368,7 @@ func (st *rtState) concretise(q rtReq, rng *rand.Rand) (method, target string, h
 		case "b64":
 			qs.Set("state", "!!!")
 		case "json":
-			qs.Set("state", base64.RawURLEncoding.EncodeToString([]byte(pick(rng, "{", "[]", "{\"offset\":\"x\"}", "{\"offset\":1.5}"))))
+			qs.Set("state", base64.RawURLEncoding.EncodeToString([]byte(pick(rng, "{", "[]", "{\"offset\":\"x\"}", "{\"offset\":1.5}", "null", "null", "true", "7", "\"x\""))))
 		case "neg":
 			qs.Set("state", stateTok(-1))
 		case "huge":
